@@ -411,6 +411,10 @@ fn slots(d: &[f64], demand_kind: &'static str, rich: bool) -> Vec<Vec<Letter>> {
             "gas+biomass_out_heats",
             vec![u(Some(1), "ACS", "BIOMASA", &cv(&sc(0.625))), o(1, "ACS", &cv(&sc(0.5))), u(Some(1), "CAL", "BIOMASA", &cv(&sc(2.0))), o(1, "CAL", &cv(&sc(1.5))), u(Some(2), "ACS", "GASNATURAL", &cv(&sc(0.5))), o(2, "ACS", &cv(&sc(0.5)))],
         ),
+        // a biomass boiler with declared output whose system also has solar collectors (the production that covers them carries
+        // the boiler's system id), or an own PV field; gas beside it: range / invariance clauses only
+        m("gas+biomass_out+solar_same_system", vec![u(Some(1), "ACS", "BIOMASA", &cv(&sc(0.5))), o(1, "ACS", &cv(&sc(0.5))), u(Some(1), "ACS", "TERMOSOLAR", &cv(&sc(0.1))), u(Some(2), "ACS", "GASNATURAL", &cv(&sc(0.5)))]),
+        m("gas+dens_out+pv_same_system", vec![u(Some(1), "ACS", "BIOMASADENSIFICADA", &cv(&sc(0.625))), o(1, "ACS", &cv(&sc(0.5))), p(Some(1), "EL_INSITU", &cv(&sc(0.05))), u(Some(2), "ACS", "GASNATURAL", &cv(&sc(0.5)))]),
         // district network with (by default) no renewable share beside biomass without declared output: all nearby
         m("red1_50+biomass50", vec![u(Some(1), "ACS", "RED1", &cv(&sc(0.5))), u(Some(2), "ACS", "BIOMASA", &cv(&sc(0.625)))]),
         // liquid biofuel is not a nearby carrier: no renewable share for the indicator
@@ -484,6 +488,16 @@ fn slots(d: &[f64], demand_kind: &'static str, rich: bool) -> Vec<Vec<Letter>> {
         slot_by.push(mk("ref_red1+ven_el", vec![com(u(Some(9), "REF", "RED1", &cv(&vec![40.0; d.len()])), "BY"), u(Some(8), "VEN", "ELECTRICIDAD", &cv(&vec![12.0; d.len()]))], vec![12.0; d.len()]));
     }
     vec![slot_d, slot_mix, slot_pv, slot_aux, slot_by]
+}
+
+/// the DHW parameter space as a construction model for other checks (C16 judges it for panics only)
+pub fn construction_slots(quick: bool) -> Vec<(&'static str, Vec<Vec<Letter>>)> {
+    let mut v = vec![("D=(120,120)", slots(&[120.0, 120.0], "given", false)), ("D=(20,40,180) three steps", slots(&[20.0, 40.0, 180.0], "given", false))];
+    if !quick {
+        v.push(("no demand line", slots(&[120.0, 120.0], "none", false)));
+        v.push(("D=(200,0,40) rich", slots(&[200.0, 0.0, 40.0], "given", true)));
+    }
+    v
 }
 
 pub fn run(ctx: &Ctx) -> i32 {
